@@ -606,6 +606,7 @@ EXTERNAL_CONSTS.update({
     'fvm_shared::econ::TokenAmount::PRECISION': IntV(10**18, 'u64'), 'TokenAmount::PRECISION': IntV(10**18, 'u64'),
     'TokenAmount::DECIMALS': IntV(18, 'usize'),
     'NO_ALLOCATION_ID': IntV(0, 'u64'),
+    'log::STATIC_MAX_LEVEL': EnumV('LevelFilter', 0, 'Off'), 'STATIC_MAX_LEVEL': EnumV('LevelFilter', 0, 'Off'),
 })
 
 
@@ -1670,8 +1671,31 @@ def _(E, c):
 
 
 @model('re:^anyhow::', 're:^<anyhow::Error as ', 're:^Error::msg$', 're:^<Error as From>::from$', 're:^anyhow$',
-       're:^format_err$', 're:^__anyhow$')
+       're:^format_err$', 're:^__anyhow$', 're:^<anyhow::Error>::', 're:^<impl anyhow::Error>::', 're:^__private::format_err$',
+       're:^<Error>::(downcast|downcast_ref|msg|new|context|is)$')
 def _(E, c):
+    """anyhow::Error = an opaque error that may wrap a typed error (the ActorError case matters: its exit code
+    survives `.into()` / `downcast_default`)"""
+    m = c.callee.idents[-1] if c.callee.idents else ''
+    if m == 'from' and c.args:
+        v = E.deref(c.args[0])
+        return OpaqueV('anyhow', v if isinstance(v, (StructV, LazyV)) else None)
+    if m in ('downcast', 'downcast_ref', 'downcast_mut'):
+        v = E.deref(c.args[0])
+        T = c.generics[0] if c.generics else ''
+        inner = v.payload if isinstance(v, OpaqueV) else None
+        if inner is not None and type_head(getattr(inner, 'ty', '') or '') == type_head(T):
+            if m == 'downcast':
+                return ok(inner, c.dest_ty)
+            return some(RefV(Cell(inner, 'anyhow_inner'), ()), c.dest_ty)
+        return err(v, c.dest_ty) if m == 'downcast' else none(c.dest_ty)
+    if m == 'is':
+        v = E.deref(c.args[0])
+        T = c.generics[0] if c.generics else ''
+        inner = v.payload if isinstance(v, OpaqueV) else None
+        return inner is not None and type_head(getattr(inner, 'ty', '') or '') == type_head(T)
+    if m in ('context', 'with_context'):
+        return c.args[0]
     return OpaqueV('anyhow')
 
 
@@ -1854,3 +1878,58 @@ def _(E, c):
         if E.ctx.branch(x.v == val):
             return mk_enum(h, h, name)
     return mk_enum(h, h, 'Invalid', [x])
+
+
+# =======================================================================================
+# BitField: only emptiness / cardinality are observed by the money-moving code paths modelled here
+
+class BitFieldV:
+    __slots__ = ('name',)
+
+    def __init__(self, name):
+        self.name = name
+
+    def __repr__(self):
+        return 'BitField(%s)' % self.name
+
+
+def bitfield_empty(E, v):
+    v = E.deref(v)
+    if isinstance(v, LazyV):
+        v = E.materialize(v.ty, v.name)
+    if isinstance(v, BitFieldV):
+        return z3.Int(v.name + '#card') == 0
+    raise Inconclusive('expected BitField, got %r' % (v,))
+
+
+def _lazy_bitfield(E, ty, name):
+    n = z3.Int(name + '#card')
+    key = ('range', name + '#card')
+    if key not in E.ctx.memo:
+        E.ctx.memo[key] = True
+        E.ctx.assume(n >= 0)
+    return BitFieldV(name)
+
+
+LAZY_TYPES['BitField'] = _lazy_bitfield
+VALUE_TYPES[BitFieldV] = 'BitField'
+
+
+@model('BitField::is_empty')
+def _(E, c):
+    return bitfield_empty(E, c.args[0])
+
+
+@model('BitField::len')
+def _(E, c):
+    v = E.deref(c.args[0])
+    if isinstance(v, LazyV):
+        v = E.materialize(v.ty, v.name)
+    return IntV(z3.Int(v.name + '#card'), 'u64')
+
+
+@model('BitField::new', 're:^<BitField as Default>::default$')
+def _(E, c):
+    nm = E.ctx.fresh_name('bf_new')
+    E.ctx.assume(z3.Int(nm + '#card') == 0)
+    return BitFieldV(nm)
